@@ -106,3 +106,63 @@ def split_messages(data: bytes, max_size: int = 65535):
     if err is not None or rest:
         raise ValueError(f'emitted bytes do not frame: err={err} rest={len(rest)}')
     return msgs
+
+
+def parse_config_file(path: str):
+    """Configuration from a file on disk, the way the daemon reads it; returns (cfg, ok)."""
+    from exabgp.configuration.configuration import Configuration
+
+    cfg = Configuration([path])
+    ok = cfg.reload()
+    return cfg, ok
+
+
+def reset_value_caches() -> None:
+    """Forget the by-value instance cache of exabgp.protocol.resource.Resource subclasses whose instances
+    carry mutable state (NetMask.maximum), so that one case cannot change what the next one parses."""
+    from exabgp.protocol.ip.netmask import NetMask
+    from exabgp.protocol.resource import Resource
+
+    Resource.cache.pop(NetMask, None)
+
+
+# ---- C15: a session on which every registered family (and optionally ADD-PATH for all of them) is negotiated -----
+C15_NEIGHBOR = """
+neighbor 127.0.0.2 {
+  router-id 1.2.3.4;
+  local-address 127.0.0.1;
+  local-as 65001;
+  peer-as 65001;
+  capability { asn4 %(asn4)s; add-path %(addpath)s; aigp enable; }
+  family { all; }
+}
+"""
+
+
+def negotiated_all_families(families, asn4: bool = True, addpath: bool = False, direction_out: bool = True):
+    """A real Negotiated for `families` [(afi, safi) ints].  Our OPEN is built from a text-parsed neighbor with
+    'family all'; its ADD-PATH capability is overridden the way exabgp.configuration.check._negotiated does it, so that
+    families the add-path section cannot name (ipv6 multicast, ipv4 rtc) are covered too.  The peer OPEN is reference
+    bytes (all capabilities in one optional parameter: 23 families do not fit one-capability-per-parameter)."""
+    from exabgp.bgp.message.open.capability import Capability
+    from exabgp.bgp.message.open.capability.addpath import AddPath
+    from exabgp.protocol.family import AFI, SAFI
+
+    cfg, neighbor = neighbor_from_text(C15_NEIGHBOR % dict(asn4='enable' if asn4 else 'disable', addpath='send/receive' if addpath else 'disable'))
+    ours = our_open(neighbor)
+    if addpath:
+        fams = [(AFI.from_int(a), SAFI.from_int(s)) for a, s in families]
+        ours.capabilities[Capability.CODE.ADD_PATH] = AddPath(fams, 3)
+    caps = [wire.cap_mp(a, s) for a, s in families]
+    if asn4:
+        caps.append(wire.cap_asn4(65001))
+    if addpath:
+        caps.append(wire.cap_addpath([(a, s, 3) for a, s in families]))
+    body = wire.encode_open(65001, 180, '9.9.9.9', caps, style='all-in-one')
+    from exabgp.bgp.message.direction import Direction
+    from exabgp.bgp.message.open.capability.negotiated import Negotiated
+
+    neg = Negotiated.make_negotiated(neighbor, Direction.OUT if direction_out else Direction.IN)
+    neg.sent(ours)
+    neg.received(unpack_open(body))
+    return neighbor, neg
